@@ -44,7 +44,7 @@ class Contract(_Keep):
                  returns=None, raises=None, loops=None, ghost=None, on_yield=None,
                  inline=False, variants=None, canaries=(), replay=None, int_mode=None,
                  verify=True, assumptions=(), note="", spec_funcs=None, inline_callees=(),
-                 ensures_on_raise=None, max_paths=4000, label=None, known_extra=None, harness=None, cost=1, canary_variants=2, native_fallback=None):
+                 ensures_on_raise=None, max_paths=4000, label=None, known_extra=None, harness=None, cost=1, canary_variants=2, native_fallback=None, timeout_ms=None):
         self.key = key
         self.props = list(props)
         self.setup = setup
@@ -73,6 +73,7 @@ class Contract(_Keep):
         self.harness = harness
         self.cost = cost
         self.native_fallback = native_fallback
+        self.timeout_ms = timeout_ms
         self.canary_variants = canary_variants
 
 
@@ -91,7 +92,8 @@ class Registry(object):
         for k, v in c.spec_funcs.items():
             _B.SPEC_FUNCS.setdefault(k, v)
         # the first contract registered for a key is the call-site contract
-        self.by_key.setdefault(c.key, c)
+        if c.harness is None:
+            self.by_key.setdefault(c.key, c)
         return c
 
     def contract(self, key, **kw):
